@@ -40,6 +40,21 @@ import (
 	log "github.com/sirupsen/logrus"
 )
 
+// Converts a terminal of the search tree to filter criteria. A negated all-column comparison with a number (see
+// ast.Comparison.Negated) keeps its operator; the expression filter is marked so that its result is negated.
+func processTerminal(cmp *ast.Comparison, forceCaseSensitive bool, qid uint64) ([]*FilterCriteria, error) {
+	criteria, err := ast.ProcessSingleFilter(cmp.Field, cmp.Values, cmp.OriginalValues, cmp.Op, cmp.ValueIsRegex, cmp.CaseInsensitive, cmp.IsTerm, forceCaseSensitive, qid)
+	if err != nil || !cmp.Negated {
+		return criteria, err
+	}
+	for _, c := range criteria {
+		if c.ExpressionFilter != nil {
+			c.ExpressionFilter.NegateMatch = !c.ExpressionFilter.NegateMatch
+		}
+	}
+	return criteria, nil
+}
+
 func ParseRequest(searchText string, startEpoch, endEpoch uint64, qid uint64, queryLanguageType string, indexName string) (*ASTNode, *QueryAggregators, []string, error) {
 	var err error
 	var queryAggs *QueryAggregators
@@ -402,7 +417,7 @@ func SearchQueryToASTnode(node *ast.Node, boolNode *ASTNode, qid uint64, forceCa
 		}
 
 	case ast.NodeTerminal:
-		criteria, err := ast.ProcessSingleFilter(node.Comparison.Field, node.Comparison.Values, node.Comparison.OriginalValues, node.Comparison.Op, node.Comparison.ValueIsRegex, node.Comparison.CaseInsensitive, node.Comparison.IsTerm, forceCaseSensitive, qid)
+		criteria, err := processTerminal(&node.Comparison, forceCaseSensitive, qid)
 		if err != nil {
 			log.Errorf("qid=%d, SearchQueryToASTnode: Error while processing single filter, error: %v", qid, err)
 			return err
@@ -459,7 +474,7 @@ func parseORCondition(node *ast.Node, boolNode *ASTNode, qid uint64, forceCaseSe
 		}
 		return nil
 	case ast.NodeTerminal:
-		criteria, err := ast.ProcessSingleFilter(node.Comparison.Field, node.Comparison.Values, node.Comparison.OriginalValues, node.Comparison.Op, node.Comparison.ValueIsRegex, node.Comparison.CaseInsensitive, node.Comparison.IsTerm, forceCaseSensitive, qid)
+		criteria, err := processTerminal(&node.Comparison, forceCaseSensitive, qid)
 		if err != nil {
 			log.Errorf("qid=%d, parseORCondition: Error while processing single filter, err: %v", qid, err)
 			return err
@@ -509,7 +524,7 @@ func parseANDCondition(node *ast.Node, boolNode *ASTNode, qid uint64, forceCaseS
 		}
 		return nil
 	case ast.NodeTerminal:
-		criteria, err := ast.ProcessSingleFilter(node.Comparison.Field, node.Comparison.Values, node.Comparison.OriginalValues, node.Comparison.Op, node.Comparison.ValueIsRegex, node.Comparison.CaseInsensitive, node.Comparison.IsTerm, forceCaseSensitive, qid)
+		criteria, err := processTerminal(&node.Comparison, forceCaseSensitive, qid)
 		if err != nil {
 			log.Errorf("qid=%d, parseANDCondition: Error while processing single filter, err: %v", qid, err)
 			return err
